@@ -419,10 +419,32 @@ class Regrouping(Harness):
     def native(self, inputs, label):
         d = conc_dim(inputs, 'd', ('kg', 'm', 's'))
         text = '1' + ''.join(' %s^%d' % (k, e) for k, e in d.items())
-        return [{'mode': 'query', 'text': text}] + [{'mode': 'lookup', 'name': n} for n in self.READBACK]
+        # first on the harness's own derived-unit table (the universe the solver's model lives in), then through a query
+        # on the bundled database
+        unit_level = {'mode': 'pretty_unit', 'derived': {n: DERIVED[n] for n in self.names},
+                      'long_names': {'kg': 'kilogram', 'm': 'meter', 's': 'second'},
+                      'number': {'value': '1/1', 'unit': {k: e for k, e in d.items() if e}}}
+        return [unit_level, {'mode': 'query', 'text': text}] + [{'mode': 'lookup', 'name': n} for n in self.READBACK]
 
     def judge(self, inputs, label, obs):
         """read the displayed unit back with rink's own lookup: the product of the printed names is the original dimensionality"""
+        ul, obs = obs[0], obs[1:]
+        d0 = {k: e for k, e in conc_dim(inputs, 'd', ('kg', 'm', 's')).items() if e}
+        if ul.get('outcome') == 'panic':
+            return True, 'pretty_unit panics on %s: %s' % (d0, ul.get('panic'))
+        if ul.get('outcome') == 'ok':
+            back = {'kilogram': 'kg', 'meter': 'm', 'second': 's'}
+            dims = {}
+            for uname, e in ul['unit'].items():
+                if uname in DERIVED:
+                    for k, x in DERIVED[uname].items():
+                        dims[k] = dims.get(k, 0) + x * int(e)
+                else:
+                    k = back.get(uname, uname)
+                    dims[k] = dims.get(k, 0) + int(e)
+            dims = {k: e for k, e in dims.items() if e}
+            if dims != d0:
+                return True, 'pretty_unit with the derived units %s shows %s for %s: expanded back that is %s' % (self.names, ul['unit'], d0, dims)
         q = obs[0]
         if q.get('outcome') == 'panic' or q.get('render_panic'):
             return True, 'panic %s' % (q.get('panic') or q.get('render_panic'))
